@@ -131,6 +131,18 @@ def evalOk : Op → Bool
   | .createUnique _ _ _ _ _ _ kws => kwFresh [S "deferrable", S "initially", S "schema"] kws
   | _ => true
 
+def consEvalOk : Cons → Bool
+  | .fk _ _ _ opts => kwFresh [S "name"] opts
+  | .uq _ _ _ _ kws => kwFresh [S "deferrable", S "initially", S "name"] kws
+  | _ => true
+
+/-- `evalOk` extended to `create_table`: the extra keyword arguments of every column, of every inline unique / foreign
+key constraint and of the table itself do not shadow the parameters the constructor binds itself -/
+def evalOkT : Op → Bool
+  | .createTable _ _ cols cons _ kws _ =>
+    cols.all (fun col => kwFresh colKnown col.kwargs) && cons.all consEvalOk && kwFresh tableKnown kws
+  | o => evalOk o
+
 /-! ## evaluation check on the implementation's text (decidable form run by the driver) -/
 
 def tableOf : Op → Str
